@@ -205,6 +205,7 @@ func (g *GoChannel) Subscribe(ctx context.Context, topic string) (<-chan *messag
 		logger:        g.logger,
 		closing:       make(chan struct{}),
 	}
+	verifhook.Point("gochannel.subscribe.created", topic, s.uuid, verifhook.ID(s.outputChannel))
 
 	go func(s *subscriber, g *GoChannel) {
 		select {
